@@ -138,3 +138,17 @@ Theorem C09_delete_through_leaf :
     forall w, ~ In (p, w) (snd (delete_cond t (p ++ k :: r) c)).
 Proof. exact @delete_through_leaf. Qed.
 Print Assumptions C09_delete_through_leaf.
+
+(** The executable flat prefix-free-map specification that the check applies
+    to the implementation's own answers ([CTreeCheck.fstep], the checker K_P)
+    is refined by the model for EVERY operation sequence over the whole API
+    (Add, Get, GetLeaf, GetLeafValue, Query, Walk, WalkSorted, Delete,
+    DeleteConditional, WalkDeleted, Children, IsBranch): answers agree, unordered
+    ones up to permutation, except GetLeaf on a branch position (known finding
+    KF-C09-1, constructor [OE_known_getleaf]). *)
+From Gnmi Require Import CTree.CTreeCheck CTree.CTreeRefine.
+Theorem C09_model_refines_flat_spec :
+  forall os : list op,
+    Forall2 (fun o rr => obs_equiv o (fst rr) (snd rr)) os (combine (mrun None os) (frun [] os)).
+Proof. exact run_refines. Qed.
+Print Assumptions C09_model_refines_flat_spec.
